@@ -227,7 +227,7 @@ func (t syncGroupRequestGroupAssignmentV0) size() int32 {
 
 func (t syncGroupRequestGroupAssignmentV0) writeTo(wb *writeBuffer) {
 	wb.writeString(t.MemberID)
-	wb.writeBytes(t.MemberAssignments)
+	wb.writeNonNullBytes(t.MemberAssignments)
 }
 
 type syncGroupRequestV0 struct {
